@@ -472,7 +472,7 @@ impl Runner {
                             let dt = t0.elapsed().as_secs_f64();
                             if dt > 3.0 {
                                 let sv = serde_json::to_string(&case).unwrap_or_default();
-                                eprintln!("note: slow case ({dt:.1}s): {}", &sv[..sv.len().min(1500)]);
+                                eprintln!("note: slow case ({dt:.1}s): {}", &sv[..sv.len().min(240)]);
                             }
                             let counting = !*failed.borrow();
                             if v.discard {
